@@ -14,7 +14,10 @@ INT_TYPES = [("signed char", "i8"), ("unsigned char", "u8"), ("short", "i16"), (
              ("cnl::overflow_integer<int,cnl::saturated_overflow_tag>", "overflow_i32"), ("cnl::wide_integer<100,unsigned>", "wide100u"),
              # wrappers whose representation is a character type: the numeral, not the character, must be printed
              ("cnl::elastic_integer<7,signed char>", "elastic7c"), ("cnl::overflow_integer<signed char,cnl::saturated_overflow_tag>", "overflow_i8"),
-             ("cnl::rounding_integer<unsigned char,cnl::nearest_rounding_tag>", "rounding_u8"), ("cnl::wide_integer<7,signed char>", "wide7c"), ("cnl::elastic_integer<3,unsigned char>", "elastic3uc")]
+             ("cnl::rounding_integer<unsigned char,cnl::nearest_rounding_tag>", "rounding_u8"), ("cnl::wide_integer<7,signed char>", "wide7c"), ("cnl::elastic_integer<3,unsigned char>", "elastic3uc"),
+             # a rounding layer nested inside other wrappers (the numeral's digits come from truncating divisions whatever the rounding mode)
+             ("cnl::static_integer<20>", "static20"), ("cnl::overflow_integer<cnl::rounding_integer<int,cnl::nearest_rounding_tag>,cnl::saturated_overflow_tag>", "overflow_rounding_i32"),
+             ("cnl::elastic_integer<31,cnl::rounding_integer<int,cnl::nearest_rounding_tag>>", "elastic31_rounding"), ("cnl::rounding_integer<long,cnl::nearest_rounding_tag>", "rounding_i64")]
 REPS = [("signed char", "i8"), ("unsigned char", "u8"), ("short", "i16"), ("unsigned short", "u16"), ("int", "i32"), ("unsigned", "u32"), ("long", "i64"), ("unsigned long", "u64")]
 
 RULE13 = ("kernel = integer type (built-in 8..128 bit, wide_integer, elastic_integer, overflow_integer; bases 2,3,8,10,16,36) or scaled_integer<Rep, power<E,R>> from the frozen universe matrix/text.json (fixed core + VERIF_SEED sample). "
@@ -42,6 +45,11 @@ def candidates():
         for e in (1, 2, -1, -3):
             out["scaled<e%d,%d,10>" % (d, e)] = "c13::scaled<cnl::elastic_integer<%d>,%d,10>" % (d, e)
         out["scaled<e%d,-4,2>" % d] = "c13::scaled<cnl::elastic_integer<%d>,-4,2>" % d
+    # radixes above 10 (a digit of the radix is worth more than a decimal digit), positive and negative exponents
+    for rc, rn in (("int", "i32"), ("unsigned char", "u8"), ("long", "i64"), ("short", "i16")):
+        for r, es in ((16, (12, 4, 1, -2)), (12, (14, 3, -1)), (36, (5, -1))):
+            for e in es:
+                out["scaled<%s,%d,%d>" % (rn, e, r)] = "c13::scaled<%s,%d,%d>" % (rc, e, r)
     for e in range(-70, 71):
         rc, rn = rng.choice(REPS)
         out.setdefault("scaled<%s,%d,2>" % (rn, e), "c13::scaled<%s,%d,2>" % (rc, e))
@@ -62,6 +70,8 @@ def select(tier, seed):
     ks = [("ints<%s>" % tn, 'c13::ints<%s>' % tc) for tc, tn in INT_TYPES]
     el = [k for k in uni if k["desc"].startswith("scaled<e")]
     chosen += [k for k in el if k not in chosen]
+    hr = [k for k in uni if k["desc"].endswith((",12>", ",16>", ",36>"))]
+    chosen += [k for k in (hr if tier == "thorough" else hr[seed % 2::2]) if k not in chosen]
     return ks + [(k["desc"], k["stmt"]) for k in chosen]
 
 
